@@ -21,6 +21,18 @@ Zero-valued slice family (DESIGN K4) is generated separately (class "zero"): a w
 along a sliced index is set to exactly zero, all other entries positive (so the total is
 non-zero).  It is run with check_zero=True (real verdict) and, only where that passes, with
 check_zero=False (expected to produce a NaN mantissa: the recorded finding).
+
+Histories on ONE tree object (family "history"): a tree caches its compiled contractors
+(``tree.contraction_cores``), so what a call returns may depend on what the same object
+was asked before.  2-4 calls are made on the SAME tree with different (strip_exponent,
+check_zero, order, prefer_einsum, implementation) and different data (dense, with or
+without slabs; positive data with an exactly-zero slab along a sliced inner index), in
+both orders (check_zero False then True, True then False) with the option objects (also a
+callable ``order``) shared between the calls so that equal options really are equal.  Every
+stripped call is judged by the same log-domain oracle; every call with check_zero=True (or
+dense data) must be right whatever was called before.  A check_zero=False call on
+zero-slab data is the recorded finding there too (same key, confirmed by re-running that
+single call on a fresh tree); a failing call that itself had check_zero=True never is.
 """
 
 import copy
@@ -43,9 +55,11 @@ RULE = (
     "implementation, check_zero} x entry point "
     "(tree.contract, contract_slice+gather_slices on a lazy stream, array_contract, cached expression reused "
     "with other scales, einsum, single-tensor expressions) x {signed, positive, complex} mantissas; the plain "
-    "contraction is executed for every case; distinct = distinct (network, tree, removed, scales, slabs, "
-    "options, entry); non-trivial = the plain float contraction is inf/nan/0 somewhere OR a sliced output "
-    "index is present"
+    "contraction is executed for every case; histories: 2-4 calls on ONE tree object (1-2 shared option sets x "
+    "strip_exponent x check_zero x {contract, contract_slice+gather_slices} x {dense, zero-slab} data x fresh "
+    "scales per call; shapes off->on, on->off, random); distinct = distinct (network, tree, removed, scales, "
+    "slabs, options, entry[, calls]); non-trivial = the plain float contraction is inf/nan/0 somewhere OR a "
+    "sliced output index is present OR (history) two stripped calls with the same option set differ in check_zero"
 )
 ASSUMPTIONS = [
     "E1 (ref.dense_einsum) on O(1) mantissas is exact up to its own rounding bound (cross-checked with numpy in C01)",
@@ -67,6 +81,7 @@ REQUIRED_MONITORS = [
     "array_contract_stripped",
     "single_tensor_stripped",
     "zero_slice_check_zero_on",
+    "same_tree_histories",
 ]
 SHARD_TIMEOUT = {"quick": 400, "thorough": 3600}
 
@@ -499,6 +514,89 @@ def _execute_single(rep, case):
 
 
 # --------------------------------------------------------------------------- #
+#                 histories: several calls on ONE tree object                 #
+# --------------------------------------------------------------------------- #
+
+
+def _view(case, call):
+    """what mantissas() / _slack() read, for one call of a history"""
+    return {
+        "net": case["net"], "case_seed": case["case_seed"], "kind": call["kind"], "slabs": call["slabs"],
+        "zero": case["zero"] if call["data"] == "zero" else [],
+    }
+
+
+def known_outcome(call, kind):
+    """the recorded finding: THIS call strips without check_zero, on zero-slab data, and is non-finite"""
+    return bool(call.get("strip")) and not call.get("check_zero") and call.get("data") == "zero" and kind == "nonfinite"
+
+
+def execute_history(rep, case):
+    """Run the calls of ``case`` one after the other on one tree object.  Returns SKIP or the
+    list of (call index, kind, message) of the stripped calls that are wrong."""
+    with np.errstate(all="ignore"):
+        try:
+            return _execute_history(rep, case)
+        except Exception:
+            rep.inconclusive_case("harness error (history): " + traceback.format_exc()[-800:])
+            return SKIP
+
+
+def _execute_history(rep, case):
+    net = gen.Net.from_json(case["net"])
+    cs = case["case_seed"]
+    N = net.N
+    nsteps = N + 2
+    fixed = _fixed(case)
+    try:
+        tree = _build_tree(net, case)
+        # one kwargs dict per option set, built once: a callable ``order`` is then the SAME object in
+        # every call that uses the set (equal options must look equal to whatever the tree caches)
+        kws = [_kw(tree, o, f"{cs}/optset{j}") for j, o in enumerate(case["optsets"])]
+    except Exception as e:
+        rep.count("excluded", f"history: tree setup raised {type(e).__name__}")
+        return SKIP
+    fails = []
+    for idx, call in enumerate(case["calls"]):
+        view = _view(case, call)
+        sc = call["scales"]
+        full, _ = mantissas(view, sc, call["tag"])
+        arrays = scaled(full, sc)
+        kw = dict(kws[call["opt"]])
+        if call["strip"]:
+            kw["strip_exponent"] = True
+        if call["check_zero"]:
+            kw["check_zero"] = True
+        try:
+            if call["via"] == "slices":
+                res = tree.gather_slices(tree.contract_slice(arrays, i, **kw) for i in range(tree.nslices))
+            else:
+                res = tree.contract(arrays, **kw)
+        except Exception as e:
+            if call["strip"]:
+                fails.append((idx, "raises", f"{type(e).__name__}: {e} | {traceback.format_exc()[-500:]}"))
+            else:
+                rep.count("excluded", f"history: plain call raised {type(e).__name__}")
+            continue
+        if not call["strip"]:
+            continue  # a plain call is history only (it may overflow): not judged here
+        mant, extra = mantissas(view, sc, call["tag"], lift=fixed)
+        want, bound, nsum = ref.dense_einsum(net.inputs, net.output, mant, fixed=fixed or None, with_bound=True)
+        if not np.any(want != 0):
+            rep.count("excluded", "history: true result exactly zero")
+            continue
+        S = math.fsum(float(x) for x in sc) + extra
+        bad = check_pair(res, want, bound, nsum, N, S, _slack(view, sc, nsteps))
+        rep.mon("stripped_vs_logref")
+        rep.mon("history_calls_checked")
+        if idx:
+            rep.mon("history_calls_checked_after_earlier_calls")
+        if bad:
+            fails.append((idx, bad[0], bad[1]))
+    return fails
+
+
+# --------------------------------------------------------------------------- #
 #                                generators                                   #
 # --------------------------------------------------------------------------- #
 
@@ -721,6 +819,99 @@ def gen_single(rng, cs, tier):
     }
 
 
+HISTORY_SHAPES = ("off_on", "off_on", "on_off", "on_off", "random")
+
+
+def gen_history(rng, cs, tier):
+    """2-4 calls on one tree sliced along an INNER index ``a`` (a zero slab along a sliced
+    output index with check_zero=True is the other recorded finding: kept out of here)."""
+    for _ in range(50):
+        net = gen.network(rng, 2, 6, cap=5000, classes=("graph", "hyper", "chain", "lattice", "batch", "hadamard", "perverse"))
+        sliceable = [ix for ix in ref.index_order(net.inputs, net.output) if 2 <= net.size_dict[ix] <= 8]
+        inner = [ix for ix in sliceable if ix not in net.output]
+        if inner:
+            break
+    else:
+        return None
+    ssa = gen.random_ssa(rng, net.N)
+    a = rng.choice(inner)
+    removed = [[a, None]]
+    if rng.random() < 0.3:
+        for ix in sliceable:
+            if ix != a and len(removed) < 3 and net.size_dict[ix] * net.size_dict[a] <= 32 and rng.random() < 0.6:
+                removed.append([ix, None if rng.random() < 0.8 else rng.randrange(net.size_dict[ix])])
+        rng.shuffle(removed)
+    i = rng.choice([k for k, t in enumerate(net.inputs) if a in t])
+    d = net.size_dict[a]
+    nz = 1 if (d == 2 or rng.random() < 0.75) else rng.randint(2, d - 1)
+    ks = sorted(rng.sample(range(d), nz))
+    optsets = []
+    for _ in range(1 if rng.random() < 0.7 else 2):
+        o = _opts(rng, "tree")
+        optsets.append({k: o[k] for k in ("order", "prefer_einsum", "impl")})
+
+    def call(data, strip, cz, opt):
+        idx = len(calls)
+        if data == "zero":
+            kind, slabs = "pos", []
+            pattern = rng.choice(["mild", "uniform", "all+100", "all-100", "alt"])
+        else:
+            kind = rng.choice(["sign", "pos", "pos", "complex"])
+            slabs = _choose_slabs(rng, net, removed) if rng.random() < 0.4 else []
+            pattern = _weighted(rng, PATTERNS)
+        calls.append({
+            "data": data, "strip": bool(strip), "check_zero": bool(cz), "opt": opt,
+            "via": "slices" if rng.random() < 0.3 else "contract", "kind": kind, "slabs": slabs,
+            "pattern": pattern, "scales": make_scales(rng, net, ssa, pattern, slabs), "tag": f"h{idx}",
+        })
+
+    def random_call():
+        call(rng.choice(["dense", "zero"]), rng.random() < 0.8, rng.random() < 0.5, rng.randrange(len(optsets)))
+
+    calls = []
+    n = rng.randint(2, 4)
+    shape = rng.choice(HISTORY_SHAPES)
+    opt = rng.randrange(len(optsets))
+    if shape == "off_on":
+        # check_zero=False first (dense data: a clean pass; or zero data: the recorded NaN), ..., then True
+        call("dense" if rng.random() < 0.7 else "zero", True, False, opt)
+        for _ in range(n - 2):
+            random_call()
+        call("zero" if rng.random() < 0.85 else "dense", True, True, opt)
+    elif shape == "on_off":
+        call("zero" if rng.random() < 0.7 else "dense", True, True, opt)
+        call("dense" if rng.random() < 0.7 else "zero", True, False, opt)
+        for _ in range(n - 2):
+            if rng.random() < 0.5:
+                call("zero", True, True, opt)
+            else:
+                random_call()
+    else:
+        for _ in range(n):
+            random_call()
+    return {
+        "family": "history", "entry": "history", "shape": shape, "net": net.to_json(), "ssa": [list(p) for p in ssa],
+        "removed": removed, "zero": [[i, a, ks]], "optsets": optsets, "calls": calls, "case_seed": cs,
+    }
+
+
+def history_pairs(case):
+    """(#pairs off->on, #pairs on->off): stripped calls with the same option set whose check_zero differs
+    from that of an EARLIER such call"""
+    off_on = on_off = 0
+    for j, c in enumerate(case["calls"]):
+        if not c["strip"]:
+            continue
+        for b in case["calls"][:j]:
+            if b["strip"] and b["opt"] == c["opt"] and b["check_zero"] != c["check_zero"]:
+                if c["check_zero"]:
+                    off_on += 1
+                else:
+                    on_off += 1
+                break
+    return off_on, on_off
+
+
 # --------------------------------------------------------------------------- #
 #                                 driving                                     #
 # --------------------------------------------------------------------------- #
@@ -815,7 +1006,67 @@ def run_case(rep, case, rng):
         _report(rep, on, r2)
 
 
+HISTORY_KNOWN_CAP = 2  # witnesses of the recorded finding kept per shard from the histories
+
+
+def run_history(rep, case):
+    net = gen.Net.from_json(case["net"])
+    res = execute_history(rep, case)
+    off_on, on_off = history_pairs(case)
+    rep.case(
+        _key(case), bool(off_on or on_off), "history",
+        sample={"eq": net.eq(), "sizes": net.size_dict, "ssa": case["ssa"], "removed": case["removed"],
+                "zero": case["zero"], "optsets": case["optsets"], "entry": "history",
+                "calls": [[c["data"], c["via"], c["strip"], c["check_zero"], c["opt"]] for c in case["calls"]]},
+    )
+    rep.count("entry", "history")
+    if res == SKIP:
+        rep.count("skipped", "history")
+        return
+    rep.mon("same_tree_histories")
+    rep.count("history_shape", case["shape"])
+    rep.count("history_ncalls", len(case["calls"]))
+    if off_on:
+        rep.mon("history_check_zero_off_then_on")
+    if on_off:
+        rep.mon("history_check_zero_on_then_off")
+    failed = {idx for idx, _, _ in res}
+    for idx, c in enumerate(case["calls"]):
+        if c["strip"]:
+            rep.count("history_calls", f"{c['data']}:check_zero={c['check_zero']}:{'wrong' if idx in failed else 'held'}")
+    for idx, kind, msg in res:
+        c = case["calls"][idx]
+        if known_outcome(c, kind):
+            # fires on every such call: a few witnesses per shard, the rest is tallied above
+            rep.count("history_known_outcome", "check_zero=False:nonfinite")
+            if rep.extra["history_known_outcome"]["check_zero=False:nonfinite"] > HISTORY_KNOWN_CAP:
+                continue
+        w = _witness(case)
+        w["failed_call"] = idx
+        before = [[b["data"], b["via"], b["strip"], b["check_zero"], b["opt"]] for b in case["calls"][:idx]]
+        rep.violation(
+            kind, w,
+            f"{net.eq()} sizes={net.size_dict} ssa={case['ssa']} removed={case['removed']} zero={case['zero']} "
+            f"optsets={case['optsets']}: call {idx} on the same tree object (data={c['data']} via={c['via']} "
+            f"strip_exponent={c['strip']} check_zero={c['check_zero']} optset={c['opt']} scales={c['scales']} "
+            f"slabs={c['slabs']}) after [data, via, strip, check_zero, optset]={before}: {msg}",
+        )
+
+
 def run_shard(rep, tier, seed, shard, nshards):
+    _run_main(rep, tier, seed, shard, nshards)
+    # histories on one tree object: their own (small) budget and seed stream, after the main workload
+    dl = Deadline(budget(tier, 4, 60))
+    for k in range(budget(tier, 400, 10000)):
+        if dl.expired():
+            break
+        cs = f"{seed}/C19/history/{shard}/{k}"
+        case = gen_history(rng_for(cs), cs, tier)
+        if case is not None:
+            run_history(rep, case)
+
+
+def _run_main(rep, tier, seed, shard, nshards):
     dl = Deadline(budget(tier, 45, 600))
     ncases = budget(tier, 2000, 40000)
     for k in range(ncases):
@@ -844,6 +1095,8 @@ def classify(v):
     """Only the zero-slice family can receive a key, and only after the witness has been
     re-derived and re-executed."""
     w = v.get("witness") or {}
+    if w.get("family") == "history":
+        return _classify_history(v, w)
     if w.get("family") != "zero" or w.get("entry") not in ("tree", "slices"):
         return None
     net = gen.Net.from_json(w["net"])
@@ -878,7 +1131,45 @@ def classify(v):
     return None
 
 
+def _classify_history(v, w):
+    """The recorded key only if the failing CALL ITSELF stripped with check_zero=False on zero-slab data,
+    and that single call, alone on a fresh tree, is right with check_zero=True and non-finite without.
+    A wrong call that had check_zero=True (whatever preceded it) is never the recorded finding."""
+    idx = w.get("failed_call")
+    calls = w.get("calls") or []
+    if not isinstance(idx, int) or isinstance(idx, bool) or not 0 <= idx < len(calls):
+        return None
+    call = calls[idx]
+    if not known_outcome(call, v.get("kind")):
+        return None
+    net = gen.Net.from_json(w["net"])
+    sliced = {ix for ix, proj in w.get("removed", ()) if proj is None}
+    zero = [z for z in w.get("zero", ()) if z[1] in sliced and z[1] in net.inputs[z[0]] and z[2]]
+    if not zero or call.get("kind") != "pos" or call.get("slabs"):
+        return None
+    if n_zero_slices(w) < 1:
+        return None
+    rep = Report(PID, "classify", 0)
+    solo = copy.deepcopy(w)
+    solo["calls"] = [dict(copy.deepcopy(call), check_zero=True)]
+    if execute_history(rep, solo) != []:
+        return None
+    solo["calls"] = [copy.deepcopy(call)]
+    again = execute_history(rep, solo)
+    if isinstance(again, list) and len(again) == 1 and again[0][1] == "nonfinite":
+        return KNOWN_KEY
+    return None
+
+
 def replay(rep, v):
+    if v["witness"].get("family") == "history":
+        w = v["witness"]
+        res = execute_history(rep, copy.deepcopy(w))
+        for idx, kind, msg in [] if res == SKIP else res:
+            # the stored call, and anything that is not the recorded outcome of another call
+            if idx == w.get("failed_call") or not known_outcome(w["calls"][idx], kind):
+                rep.violation(kind, dict(w, failed_call=idx), f"call {idx} of the history: {msg}")
+        return
     case = copy.deepcopy(v["witness"])
     res = execute(rep, case)
     if res is not None and res != SKIP:
@@ -890,4 +1181,7 @@ def finalize(rep, tier):
     return {
         "plain_failed_cases": {k: m.get("plain_" + k, 0) for k in ("inf", "nan", "zero")},
         "sliced_output_cases": m.get("sliced_output_stripped", 0),
+        "same_tree_histories": {k: m.get(k, 0) for k in (
+            "same_tree_histories", "history_calls_checked", "history_calls_checked_after_earlier_calls",
+            "history_check_zero_off_then_on", "history_check_zero_on_then_off")},
     }
